@@ -260,5 +260,10 @@ func TestReplay(t *testing.T) {
 		}
 		t.Fatalf("replay violates %s", rf.Prop)
 	}
+	if os.Getenv("VERIF_SHOW_HISTORY") != "" {
+		for _, h := range hist {
+			fmt.Printf("    %s\n", h)
+		}
+	}
 	fmt.Printf("REPLAY-RESULT pass property=%s\n", rf.Prop)
 }
